@@ -220,7 +220,9 @@ def min_backward(grad, a, axis, keepdims):
 
 def squeeze_forward(a:np.ndarray, axis:'None | int | tuple'):
     out = a
-    can_apply = len(a.shape) > 0 and (axis is None or a.shape[axis] == 1)
+    if isinstance(axis, (tuple, list)):
+        axis = tuple(ax for ax in axis if a.shape[ax] == 1)
+    can_apply = len(a.shape) > 0 and (axis is None or isinstance(axis, tuple) or a.shape[axis] == 1)
     if can_apply: out = np.squeeze(a, axis)
     return out
 
